@@ -1,18 +1,33 @@
 package main
 
-// partshapes.go — emits coq/Gen/PartShapes.v: for every go statement of the library, the
-// SHAPE of the partition arithmetic around it, recognised from the source:
-// the statements that clamp the worker count and define the chunk size before the spawn
-// loop, and the statements that compute one worker's range inside it, are printed with the
-// role-carrying identifiers normalised (N worker count, W loop variable, C chunk, S / E
-// start / end of the range, T total) and looked up in a table of known shapes.  Statements
-// that do not take part in the arithmetic (they neither assign the worker count nor derive
-// a value from the loop variable) are ignored, as are the names of the variables.  An unknown
-// shape makes the translator REFUSE.  Properties/C12.v states that the generated
-// (file, function, shape) list equals the modelled one, where every shape is the model
-// function ([ranges_ceil], [ranges_prop], ...) whose exact-cover theorem is proved for all
-// n: a site whose arithmetic changes (e.g. floor instead of ceil chunks) breaks a proof
-// obligation, not only the differential run.
+// partshapes.go — emits coq/Gen/PartShapes.v: for every go statement of the library, WHAT
+// the spawn loop computes, as arithmetic expressions (not text):
+//
+//	nw     the number of iterations of the spawn loop, as a function of "#n" (what
+//	       runtime.GOMAXPROCS(0) returned / the worker count handed in) and of free variables;
+//	start, stop   the half-open range handed to worker "#w" (the arguments of the
+//	       verifhook.Range call in the loop), over "#w", "#n" and the free variables;
+//	break  whether the loop leaves at the first empty range.
+//
+// The expressions are obtained by SYMBOLIC EVALUATION of the statements on the path from the
+// function entry to the go statement: assignments substitute, `if c { x = e }` becomes a
+// conditional expression, the builtins min / max, conversions, shifts by constants and
+// package-local helper functions (bodies made of assignments, conditional assignments and
+// returns; multiple results allowed) are evaluated / inlined, everything else that is a pure
+// value (selectors, len(...), calls that do not mention a tracked variable) is a free
+// variable.  Names of variables, extraction into helpers, `if e > T { e = T }` versus
+// min(e, T), the way a ceiling division is written — none of this is compared anywhere: Coq
+// EVALUATES the expressions (ConcPartExpr.v): a bounded sweep decides exact cover of one
+// interval for every worker count, and a certifier recognises the chunk / floor-remainder /
+// proportional families semantically (affine decomposition in "#w") and proves the cover
+// for all sizes and all n.
+//
+// A go statement whose spawn arithmetic cannot be expressed (loop condition not `w < N`,
+// a range expression using an operator or statement form the evaluator does not know) is
+// emitted with kind "ranges?: <reason>" (a spawn loop whose arithmetic is not understood) or
+// "unknown: <reason>" (the spawn structure itself is not understood): Properties/C12.v fails on
+// both, Properties/C10.v only on the second.  The translator itself does not refuse here, so
+// that no other property's check is affected.
 
 import (
 	"bytes"
@@ -20,284 +35,879 @@ import (
 	"go/ast"
 	"go/token"
 	"path/filepath"
-	"regexp"
 	"sort"
+	"strconv"
 	"strings"
 )
 
 func init() { extraGenerators = append(extraGenerators, genPartShapes) }
 
-// known shapes: normalised code -> shape name (the model function it corresponds to)
-var partShapeTable = map[string]string{
-	// ceil-sized chunks, clipped: start = w*c, end = min(start+c, T), c = ceil(T/n'), n' = min(n, T)
-	"PRE: N := runtime.GOMAXPROCS(0) ; if N > T { N = T } ; C := (T + N - 1) / N | LOOP: S := W * C ; E := S + C ; if E > T { E = T }": "ranges_ceil",
-	// proportional bounds: start = w*T/n', end = (w+1)*T/n', n' = min(n, T)
-	"PRE: N := runtime.GOMAXPROCS(0) ; if N > T { N = T } | LOOP: S := W * T / N ; E := (W + 1) * T / N": "ranges_prop",
-	// floor-sized chunks, last worker takes the remainder, n not clipped (argbToNRGBA)
-	"PRE: C := T / N | LOOP: S := W * C ; E := S + C ; if W == N-1 { E = T }": "ranges_argb_to_nrgba",
-	// floor-sized chunks with offset, last worker takes the remainder, n' = min(n, rows)
-	"PRE: if N > numRows { N = numRows } ; C := numRows / N | LOOP: S := yStart + W*C ; E := S + C ; if W == N-1 { E = T }": "ranges_inv_cross_color",
-	// hash chain positions [1, size-1)
-	"PRE: if N > size/1000 { N = size / 1000 } ; if N < 1 { N = 1 } ; C := (size - 2 + N - 1) / N | LOOP: S := 1 + W*C ; E := S + C ; if E > size-1 { E = size - 1 }": "ranges_hashchain",
-	// computeAlphas: serial path for one worker, ceil-sized row chunks with break
-	"PRE: N := runtime.GOMAXPROCS(0) ; if N > total { N = total } ; if N < 1 { N = 1 } ; if N == 1 { return computeAlphasSerial(enc, alphas) } ; C := (T + N - 1) / N | LOOP: S := W * C ; E := S + C ; if E > T { E = T } ; if S >= E { break }": "ranges_compute_alphas",
-	// work queues: only the worker count is derived from n
-	"PRE: N := runtime.GOMAXPROCS(0) ; if N > 6 { N = 6 } ; if N > mbH { N = mbH } ; if N < 1 { N = 1 } | LOOP: ": "workers_encode_parallel",
-	"PRE: N := runtime.GOMAXPROCS(0) ; if N > len(toDecodeIdx) { N = len(toDecodeIdx) } | LOOP: ":                                                                                                "workers_decode_frames",
-	// the goroutine that closes the results channel after wg.Wait()
-	"PRE:  | LOOP: <not in a spawn loop>": "join_closer",
+// ---- expressions
+
+type psExpr struct {
+	op         string // var const add sub mul div mod min max if
+	name       string
+	z          int64
+	a, b, x, y *psExpr
+	cmp        string // OLt OLe OGt OGe OEq ONe
 }
 
-func partNormalise(pre, in []string) string {
-	return "PRE: " + strings.Join(pre, " ; ") + " | LOOP: " + strings.Join(in, " ; ")
+func psVar(n string) *psExpr  { return &psExpr{op: "var", name: n} }
+func psConst(z int64) *psExpr { return &psExpr{op: "const", z: z} }
+func psBin(op string, a, b *psExpr) *psExpr {
+	if a == nil || b == nil {
+		return nil
+	}
+	return &psExpr{op: op, a: a, b: b}
+}
+func psIf(cmp string, a, b, x, y *psExpr) *psExpr {
+	if a == nil || b == nil || x == nil || y == nil {
+		return nil
+	}
+	return &psExpr{op: "if", cmp: cmp, a: a, b: b, x: x, y: y}
+}
+
+func (e *psExpr) coq() string {
+	switch e.op {
+	case "var":
+		return "(PVar " + concCoqString(e.name) + ")"
+	case "const":
+		if e.z < 0 {
+			return fmt.Sprintf("(PConst (%d))", e.z)
+		}
+		return fmt.Sprintf("(PConst %d)", e.z)
+	case "if":
+		return fmt.Sprintf("(PIf %s %s %s %s %s)", e.cmp, e.a.coq(), e.b.coq(), e.x.coq(), e.y.coq())
+	}
+	c := map[string]string{"add": "PAdd", "sub": "PSub", "mul": "PMul", "div": "PDiv", "mod": "PMod", "min": "PMin", "max": "PMax"}[e.op]
+	return fmt.Sprintf("(%s %s %s)", c, e.a.coq(), e.b.coq())
+}
+
+func (e *psExpr) vars(into map[string]bool) {
+	if e == nil {
+		return
+	}
+	if e.op == "var" {
+		into[e.name] = true
+	}
+	for _, s := range []*psExpr{e.a, e.b, e.x, e.y} {
+		s.vars(into)
+	}
+}
+
+func (e *psExpr) mentions(n string) bool {
+	m := map[string]bool{}
+	e.vars(m)
+	return m[n]
+}
+
+// ---- symbolic evaluation
+
+type psState struct {
+	store   map[string]*psExpr // nil value: assigned something the evaluator does not understand
+	funcs   map[string]*ast.FuncDecl
+	why     *string // first reason something was not understood
+	tracked map[string]bool
+}
+
+func (s *psState) clone() *psState {
+	m := make(map[string]*psExpr, len(s.store))
+	for k, v := range s.store {
+		m[k] = v
+	}
+	return &psState{store: m, funcs: s.funcs, why: s.why, tracked: s.tracked}
+}
+
+func (s *psState) note(format string, a ...any) {
+	if *s.why == "" {
+		*s.why = fmt.Sprintf(format, a...)
+	}
+}
+
+// mentionsTracked: does the expression mention an identifier the store knows (so that
+// treating it as an opaque free variable would lose a dependency)?
+func (s *psState) mentionsTracked(e ast.Expr) bool {
+	found := false
+	ast.Inspect(e, func(x ast.Node) bool {
+		if id, ok := x.(*ast.Ident); ok {
+			if _, ok := s.store[id.Name]; ok {
+				found = true
+			}
+		}
+		return !found
+	})
+	return found
+}
+
+func (s *psState) atom(e ast.Expr) *psExpr {
+	if s.mentionsTracked(e) {
+		s.note("expression %s is not arithmetic the evaluator knows", uvPrint(e))
+		return nil
+	}
+	return psVar(uvPrint(e))
+}
+
+var psCmp = map[token.Token]string{token.LSS: "OLt", token.LEQ: "OLe", token.GTR: "OGt", token.GEQ: "OGe", token.EQL: "OEq", token.NEQ: "ONe"}
+
+func (s *psState) expr(e ast.Expr, depth int) *psExpr {
+	switch v := e.(type) {
+	case *ast.ParenExpr:
+		return s.expr(v.X, depth)
+	case *ast.Ident:
+		if val, ok := s.store[v.Name]; ok {
+			if val == nil {
+				s.note("variable %s holds a value the evaluator does not understand", v.Name)
+			}
+			return val
+		}
+		return psVar(v.Name)
+	case *ast.BasicLit:
+		if v.Kind == token.INT {
+			if z, err := strconv.ParseInt(v.Value, 0, 64); err == nil {
+				return psConst(z)
+			}
+		}
+		return s.atom(e)
+	case *ast.UnaryExpr:
+		if v.Op == token.SUB {
+			return psBin("sub", psConst(0), s.expr(v.X, depth))
+		}
+		if v.Op == token.ADD {
+			return s.expr(v.X, depth)
+		}
+		return s.atom(e)
+	case *ast.BinaryExpr:
+		op := map[token.Token]string{token.ADD: "add", token.SUB: "sub", token.MUL: "mul", token.QUO: "div", token.REM: "mod"}[v.Op]
+		if op != "" {
+			return psBin(op, s.expr(v.X, depth), s.expr(v.Y, depth))
+		}
+		if v.Op == token.SHR || v.Op == token.SHL {
+			if lit, ok := v.Y.(*ast.BasicLit); ok && lit.Kind == token.INT {
+				if k, err := strconv.Atoi(lit.Value); err == nil && k >= 0 && k < 62 {
+					if v.Op == token.SHR {
+						return psBin("div", s.expr(v.X, depth), psConst(1<<uint(k)))
+					}
+					return psBin("mul", s.expr(v.X, depth), psConst(1<<uint(k)))
+				}
+			}
+		}
+		return s.atom(e)
+	case *ast.CallExpr:
+		if id, ok := v.Fun.(*ast.Ident); ok {
+			switch id.Name {
+			case "min", "max":
+				if len(v.Args) >= 2 {
+					r := s.expr(v.Args[0], depth)
+					for _, a := range v.Args[1:] {
+						r = psBin(id.Name, r, s.expr(a, depth))
+					}
+					return r
+				}
+			case "len", "cap":
+				// opaque non-negative value
+				return psVar(uvPrint(e))
+			case "int", "int32", "int64", "uint", "uint32", "uint64":
+				if len(v.Args) == 1 {
+					return s.expr(v.Args[0], depth)
+				}
+			}
+			if fd := s.funcs[id.Name]; fd != nil && depth < 3 {
+				if rs := s.inline(fd, v.Args, depth+1); len(rs) == 1 {
+					return rs[0]
+				}
+			}
+			return s.atom(e)
+		}
+		if sel, ok := v.Fun.(*ast.SelectorExpr); ok {
+			if pk, ok := sel.X.(*ast.Ident); ok {
+				if pk.Name == "runtime" && (sel.Sel.Name == "GOMAXPROCS" || sel.Sel.Name == "NumCPU") {
+					return psVar("#n")
+				}
+				if pk.Name == "verifhook" && (sel.Sel.Name == "Workers") && len(v.Args) == 2 {
+					return s.expr(v.Args[1], depth)
+				}
+			}
+		}
+		return s.atom(e)
+	}
+	return s.atom(e)
+}
+
+func (s *psState) cond(e ast.Expr, depth int) (string, *psExpr, *psExpr, bool) {
+	if p, ok := e.(*ast.ParenExpr); ok {
+		return s.cond(p.X, depth)
+	}
+	be, ok := e.(*ast.BinaryExpr)
+	if !ok || psCmp[be.Op] == "" {
+		return "", nil, nil, false
+	}
+	a, b := s.expr(be.X, depth), s.expr(be.Y, depth)
+	if a == nil || b == nil {
+		return "", nil, nil, false
+	}
+	return psCmp[be.Op], a, b, true
+}
+
+// assignedIdents lists the identifiers assigned anywhere below n.
+func psAssigned(n ast.Node) []string {
+	var out []string
+	ast.Inspect(n, func(x ast.Node) bool {
+		switch v := x.(type) {
+		case *ast.AssignStmt:
+			for _, l := range v.Lhs {
+				if id, ok := l.(*ast.Ident); ok && id.Name != "_" {
+					out = append(out, id.Name)
+				}
+			}
+		case *ast.IncDecStmt:
+			if id, ok := v.X.(*ast.Ident); ok {
+				out = append(out, id.Name)
+			}
+		case *ast.RangeStmt:
+			for _, e := range []ast.Expr{v.Key, v.Value} {
+				if id, ok := e.(*ast.Ident); ok && id.Name != "_" {
+					out = append(out, id.Name)
+				}
+			}
+		}
+		return true
+	})
+	return out
+}
+
+// simpleAssigns: is the block made of plain assignments to identifiers only?
+func psSimpleAssigns(b *ast.BlockStmt) bool {
+	for _, st := range b.List {
+		if isHookStmt(st) {
+			continue
+		}
+		if ids, ok := st.(*ast.IncDecStmt); ok {
+			if _, ok := ids.X.(*ast.Ident); ok {
+				continue
+			}
+			return false
+		}
+		as, ok := st.(*ast.AssignStmt)
+		if !ok || len(as.Lhs) != len(as.Rhs) {
+			return false
+		}
+		for _, l := range as.Lhs {
+			if _, ok := l.(*ast.Ident); !ok {
+				return false
+			}
+		}
+	}
+	return true
+}
+
+func (s *psState) assign(as *ast.AssignStmt, depth int) {
+	if len(as.Lhs) == len(as.Rhs) {
+		vals := make([]*psExpr, len(as.Rhs))
+		for i, r := range as.Rhs {
+			id, ok := as.Lhs[i].(*ast.Ident)
+			if !ok || id.Name == "_" {
+				continue
+			}
+			switch as.Tok {
+			case token.DEFINE, token.ASSIGN:
+				// values nobody asks for may be anything: evaluate quietly
+				q := s.clone()
+				var dummy string
+				q.why = &dummy
+				vals[i] = q.expr(r, depth)
+			case token.ADD_ASSIGN:
+				vals[i] = psBin("add", s.expr(id, depth), s.expr(r, depth))
+			case token.SUB_ASSIGN:
+				vals[i] = psBin("sub", s.expr(id, depth), s.expr(r, depth))
+			case token.MUL_ASSIGN:
+				vals[i] = psBin("mul", s.expr(id, depth), s.expr(r, depth))
+			case token.QUO_ASSIGN:
+				vals[i] = psBin("div", s.expr(id, depth), s.expr(r, depth))
+			default:
+				vals[i] = nil
+			}
+		}
+		for i := range as.Rhs {
+			if id, ok := as.Lhs[i].(*ast.Ident); ok && id.Name != "_" {
+				s.store[id.Name] = vals[i]
+			}
+		}
+		return
+	}
+	// a, b := f(...)
+	if len(as.Rhs) == 1 {
+		if ce, ok := as.Rhs[0].(*ast.CallExpr); ok {
+			if id, ok := ce.Fun.(*ast.Ident); ok && s.funcs[id.Name] != nil && depth < 3 {
+				if rs := s.inline(s.funcs[id.Name], ce.Args, depth+1); len(rs) == len(as.Lhs) {
+					for i, l := range as.Lhs {
+						if lid, ok := l.(*ast.Ident); ok && lid.Name != "_" {
+							s.store[lid.Name] = rs[i]
+						}
+					}
+					return
+				}
+			}
+		}
+	}
+	for _, l := range as.Lhs {
+		if id, ok := l.(*ast.Ident); ok && id.Name != "_" {
+			s.store[id.Name] = nil
+		}
+	}
+}
+
+// ifAssign: `if c { x = e ... } [else { ... }]` with plain assignments becomes conditional values.
+func (s *psState) ifAssign(is *ast.IfStmt, depth int) bool {
+	if is.Init != nil || !psSimpleAssigns(is.Body) {
+		return false
+	}
+	var els *ast.BlockStmt
+	if is.Else != nil {
+		eb, ok := is.Else.(*ast.BlockStmt)
+		if !ok || !psSimpleAssigns(eb) {
+			return false
+		}
+		els = eb
+	}
+	op, a, b, ok := s.cond(is.Cond, depth)
+	th, el := s.clone(), s.clone()
+	for _, st := range is.Body.List {
+		if !isHookStmt(st) {
+			th.effect(st, depth)
+		}
+	}
+	if els != nil {
+		for _, st := range els.List {
+			if !isHookStmt(st) {
+				el.effect(st, depth)
+			}
+		}
+	}
+	names := psAssigned(is.Body)
+	if els != nil {
+		names = append(names, psAssigned(els)...)
+	}
+	for _, n := range names {
+		if !ok {
+			s.store[n] = nil
+			continue
+		}
+		tv, tok := th.store[n]
+		ev, eok := el.store[n]
+		if !tok {
+			tv = psVar(n)
+		}
+		if !eok {
+			ev = psVar(n)
+		}
+		s.store[n] = psIf(op, a, b, tv, ev)
+	}
+	return true
+}
+
+// effect applies a statement that does not contain the go statement we are heading for.
+func (s *psState) effect(st ast.Stmt, depth int) {
+	switch v := st.(type) {
+	case *ast.AssignStmt:
+		s.assign(v, depth)
+	case *ast.IncDecStmt:
+		if id, ok := v.X.(*ast.Ident); ok {
+			op := "add"
+			if v.Tok == token.DEC {
+				op = "sub"
+			}
+			s.store[id.Name] = psBin(op, s.expr(id, depth), psConst(1))
+		}
+	case *ast.DeclStmt:
+		if gd, ok := v.Decl.(*ast.GenDecl); ok {
+			for _, sp := range gd.Specs {
+				if vs, ok := sp.(*ast.ValueSpec); ok {
+					for i, n := range vs.Names {
+						if i < len(vs.Values) {
+							q := s.clone()
+							var dummy string
+							q.why = &dummy
+							s.store[n.Name] = q.expr(vs.Values[i], depth)
+						} else if t, ok := vs.Type.(*ast.Ident); ok && strings.HasPrefix(strings.TrimPrefix(t.Name, "u"), "int") {
+							s.store[n.Name] = psConst(0)
+						} else {
+							delete(s.store, n.Name)
+						}
+					}
+				}
+			}
+		}
+	case *ast.IfStmt:
+		if s.ifAssign(v, depth) {
+			return
+		}
+		// a branch that leaves the function (`if n == 1 { return serial(...) }`) only
+		// restricts the path; anything else makes the variables it assigns unknown
+		leaves := false
+		if n := len(v.Body.List); n > 0 {
+			_, leaves = v.Body.List[n-1].(*ast.ReturnStmt)
+		}
+		if leaves && v.Else == nil {
+			return
+		}
+		for _, n := range psAssigned(v) {
+			s.store[n] = nil
+		}
+	case *ast.ExprStmt, *ast.DeferStmt, *ast.GoStmt, *ast.SendStmt, *ast.EmptyStmt:
+	default:
+		for _, n := range psAssigned(st) {
+			s.store[n] = nil
+		}
+	}
+}
+
+// inline evaluates a package-local helper: assignments, conditional assignments,
+// `if c { return ... }` followed by more code, and a final return.
+func (s *psState) inline(fd *ast.FuncDecl, args []ast.Expr, depth int) []*psExpr {
+	if fd.Body == nil || fd.Type.Results == nil || fd.Recv != nil {
+		return nil
+	}
+	in := &psState{store: map[string]*psExpr{}, funcs: s.funcs, why: s.why, tracked: s.tracked}
+	i := 0
+	for _, f := range fd.Type.Params.List {
+		for _, n := range f.Names {
+			if i >= len(args) {
+				return nil
+			}
+			in.store[n.Name] = s.expr(args[i], depth)
+			i++
+		}
+	}
+	if i != len(args) {
+		return nil
+	}
+	var resNames []string
+	for _, f := range fd.Type.Results.List {
+		for _, n := range f.Names {
+			resNames = append(resNames, n.Name)
+			in.store[n.Name] = psConst(0)
+		}
+	}
+	var run func(list []ast.Stmt, st *psState) []*psExpr
+	run = func(list []ast.Stmt, st *psState) []*psExpr {
+		for k, stm := range list {
+			switch v := stm.(type) {
+			case *ast.ReturnStmt:
+				var out []*psExpr
+				if len(v.Results) == 0 {
+					for _, n := range resNames {
+						out = append(out, st.store[n])
+					}
+					return out
+				}
+				for _, r := range v.Results {
+					out = append(out, st.expr(r, depth))
+				}
+				return out
+			case *ast.IfStmt:
+				// if c { ...; return a } rest  ==>  c ? a : rest
+				if n := len(v.Body.List); n > 0 && v.Else == nil && v.Init == nil {
+					if _, isRet := v.Body.List[n-1].(*ast.ReturnStmt); isRet {
+						op, a, b, ok := st.cond(v.Cond, depth)
+						if !ok {
+							return nil
+						}
+						th := run(v.Body.List, st.clone())
+						el := run(list[k+1:], st.clone())
+						if th == nil || el == nil || len(th) != len(el) {
+							return nil
+						}
+						out := make([]*psExpr, len(th))
+						for j := range th {
+							out[j] = psIf(op, a, b, th[j], el[j])
+						}
+						return out
+					}
+				}
+				st.effect(v, depth)
+			default:
+				st.effect(stm, depth)
+			}
+		}
+		return nil
+	}
+	rs := run(fd.Body.List, in)
+	for _, r := range rs {
+		if r == nil {
+			return nil
+		}
+	}
+	return rs
+}
+
+// ---- sites
+
+type psSite struct {
+	file, fn, kind  string
+	line            int
+	nw, start, stop *psExpr
+	brk             bool
+}
+
+func psContainsGo(n ast.Node) bool {
+	found := false
+	ast.Inspect(n, func(x ast.Node) bool {
+		if _, ok := x.(*ast.GoStmt); ok {
+			found = true
+		}
+		if _, ok := x.(*ast.FuncLit); ok && !found {
+			// a go statement inside a nested function literal belongs to that literal;
+			// still a go statement of this function for our purposes
+			return true
+		}
+		return !found
+	})
+	return found
 }
 
 func genPartShapes() (string, string) {
-	type rec struct {
-		file, fn, shape, code string
-		line                  int
-	}
-	var recs []rec
-	identRe := func(name string) *regexp.Regexp { return regexp.MustCompile(`\b` + regexp.QuoteMeta(name) + `\b`) }
+	var sites []psSite
 	for _, pd := range pkgDirs {
 		p, err := load(pd.alias, pd.dir)
 		if err != nil {
 			continue
 		}
+		funcs := map[string]*ast.FuncDecl{}
+		for _, f := range p.files {
+			for _, d := range f.Decls {
+				if fd, ok := d.(*ast.FuncDecl); ok && fd.Recv == nil && fd.Body != nil {
+					funcs[fd.Name.Name] = fd
+				}
+			}
+		}
 		for _, f := range p.files {
 			fname := filepath.ToSlash(filepath.Join(pd.dir, filepath.Base(p.fset.Position(f.Pos()).Filename)))
 			for _, d := range f.Decls {
 				fd, ok := d.(*ast.FuncDecl)
-				if !ok || fd.Body == nil {
+				if !ok || fd.Body == nil || !psContainsGo(fd.Body) {
 					continue
 				}
-				// every block, to find the block whose for-loop spawns the goroutine
-				var visitBlock func(b *ast.BlockStmt)
-				handleGo := func(block *ast.BlockStmt, idx int, loop *ast.ForStmt, g *ast.GoStmt) {
-					line := p.fset.Position(g.Pos()).Line
-					if loop == nil {
-						recs = append(recs, rec{fname, fd.Name.Name, partShapeTable["PRE:  | LOOP: <not in a spawn loop>"], "PRE:  | LOOP: <not in a spawn loop>", line})
+				add := func(g *ast.GoStmt, s psSite) {
+					s.file, s.fn, s.line = fname, fd.Name.Name, p.fset.Position(g.Pos()).Line
+					sites = append(sites, s)
+				}
+				var walk func(list []ast.Stmt, st *psState)
+				spawnLoop := func(loop *ast.ForStmt, st *psState) {
+					var why string
+					st = st.clone()
+					st.why = &why
+					// "unknown": the spawn structure itself is not understood; "ranges?": it is a
+					// spawn loop, but its range arithmetic could not be expressed
+					structUnknown := func(g *ast.GoStmt, format string, a ...any) {
+						add(g, psSite{kind: "unknown: " + fmt.Sprintf(format, a...)})
+					}
+					unknown := func(g *ast.GoStmt, format string, a ...any) {
+						add(g, psSite{kind: "ranges?: " + fmt.Sprintf(format, a...)})
+					}
+					var g *ast.GoStmt
+					for _, s2 := range loop.Body.List {
+						if gs, ok := s2.(*ast.GoStmt); ok {
+							g = gs
+							break
+						}
+					}
+					// loop header: for w := 0; w < N; w++
+					W := ""
+					if as, ok := loop.Init.(*ast.AssignStmt); ok && len(as.Lhs) == 1 && len(as.Rhs) == 1 {
+						if id, ok := as.Lhs[0].(*ast.Ident); ok {
+							if lit, ok := as.Rhs[0].(*ast.BasicLit); ok && lit.Value == "0" {
+								W = id.Name
+							}
+						}
+					}
+					be, okc := loop.Cond.(*ast.BinaryExpr)
+					inc, oki := loop.Post.(*ast.IncDecStmt)
+					if W == "" || !okc || be.Op != token.LSS || uvPrint(be.X) != W || !oki || inc.Tok != token.INC || uvPrint(inc.X) != W {
+						structUnknown(g, "spawn loop is not `for w := 0; w < N; w++`")
 						return
 					}
-					// N and W from the loop condition W < N
-					N, W := "", ""
-					if be, ok := loop.Cond.(*ast.BinaryExpr); ok && be.Op == token.LSS {
-						W, N = uvPrint(be.X), uvPrint(be.Y)
+					// the loop bound: a variable never assigned before is the worker count handed in
+					if id, ok := be.Y.(*ast.Ident); ok {
+						if _, known := st.store[id.Name]; !known {
+							st.store[id.Name] = psVar("#n")
+						}
 					}
-					if N == "" || W == "" {
-						recs = append(recs, rec{fname, fd.Name.Name, "", "PRE:  | LOOP: <unrecognised loop condition " + uvPrint(loop.Cond) + ">", line})
+					nw := st.expr(be.Y, 0)
+					nwWhy := why
+					why = ""
+					st.store[W] = psVar("#w")
+					var start, stop *psExpr
+					brk := false
+					type brkCond struct {
+						op   string
+						a, b *psExpr
+					}
+					var brks []brkCond
+					haveRange := false
+					for _, s2 := range loop.Body.List {
+						if s2 == ast.Stmt(g) {
+							break
+						}
+						if es, ok := s2.(*ast.ExprStmt); ok {
+							if ce, ok := es.X.(*ast.CallExpr); ok {
+								if sel, ok := ce.Fun.(*ast.SelectorExpr); ok && uvPrint(sel.X) == "verifhook" && sel.Sel.Name == "Range" && len(ce.Args) == 3 {
+									start, stop = st.expr(ce.Args[1], 0), st.expr(ce.Args[2], 0)
+									haveRange = true
+								}
+							}
+							continue
+						}
+						if is, ok := s2.(*ast.IfStmt); ok && is.Else == nil && is.Init == nil && len(is.Body.List) == 1 {
+							if br, ok := is.Body.List[0].(*ast.BranchStmt); ok && br.Tok == token.BREAK {
+								op, a, b, ok := st.cond(is.Cond, 0)
+								if !ok {
+									unknown(g, "break condition %s", uvPrint(is.Cond))
+									return
+								}
+								brks = append(brks, brkCond{op, a, b})
+								continue
+							}
+						}
+						st.effect(s2, 0)
+					}
+					if !haveRange {
+						// no range is handed out through the hook: do the goroutine's arguments
+						// carry values computed from the loop variable?
+						var derived []*psExpr
+						for _, a := range g.Call.Args {
+							q := st.clone()
+							var dummy string
+							q.why = &dummy
+							if v := q.expr(a, 0); v != nil && v.mentions("#w") && v.op != "var" {
+								derived = append(derived, v)
+							}
+						}
+						switch len(derived) {
+						case 0:
+							if nw == nil {
+								nw = psVar("?")
+							}
+							add(g, psSite{kind: "workers", nw: nw})
+						case 2:
+							start, stop = derived[0], derived[1]
+						default:
+							unknown(g, "%d goroutine arguments derived from the loop variable and no verifhook.Range", len(derived))
+							return
+						}
+						if len(derived) == 0 {
+							return
+						}
+					}
+					if nw == nil {
+						unknown(g, "number of workers: %s", nwWhy)
 						return
 					}
-					skip := func(st ast.Stmt) bool {
-						s := uvPrint(st)
-						return isHookStmt(st) || strings.Contains(s, "verifhook.") || strings.HasPrefix(s, "var ") ||
-							strings.Contains(s, ".Add(") || strings.Contains(s, "wg.") || strings.Contains(s, "WaitGroup")
+					if start == nil || stop == nil {
+						unknown(g, "range expressions: %s", why)
+						return
 					}
-					// Only the statements that take part in the partition arithmetic are kept:
-				// before the loop, assignments to the worker count N (also inside an if), the
-				// definition of a chunk size from N, and an `if <N ...> { return ... }` that
-				// switches to a serial path; inside the loop, assignments / ifs that mention
-				// the loop variable or a value derived from it.  Everything else (logging,
-				// unrelated set-up, uses of N that do not change it) is a no-op for the shape.
-				assigns := func(st ast.Stmt, name string) bool {
-					found := false
-					ast.Inspect(st, func(x ast.Node) bool {
-						switch v := x.(type) {
-						case *ast.AssignStmt:
-							for _, l := range v.Lhs {
-								if id, ok := l.(*ast.Ident); ok && id.Name == name {
-									found = true
-								}
-							}
-						case *ast.IncDecStmt:
-							if id, ok := v.X.(*ast.Ident); ok && id.Name == name {
-								found = true
-							}
+					for _, bc := range brks {
+						// only `if start >= stop { break }` (or stop <= start)
+						ok := (bc.op == "OGe" && bc.a.coq() == start.coq() && bc.b.coq() == stop.coq()) ||
+							(bc.op == "OLe" && bc.a.coq() == stop.coq() && bc.b.coq() == start.coq())
+						if !ok {
+							unknown(g, "break condition is not `start >= end`")
+							return
 						}
-						return !found
-					})
-					return found
+						brk = true
+					}
+					add(g, psSite{kind: "ranges", nw: nw, start: start, stop: stop, brk: brk})
 				}
-				chunkDef := regexp.MustCompile(`^(\w+) := .*/ ` + regexp.QuoteMeta(N) + `$`)
-				var pre []string
-				for _, st := range block.List[:idx] {
-					txt := uvPrint(st)
-					if skip(st) || !identRe(N).MatchString(txt) {
-						continue
-					}
-					keep := assigns(st, N) || chunkDef.MatchString(txt)
-					if is, ok := st.(*ast.IfStmt); ok && identRe(N).MatchString(uvPrint(is.Cond)) && strings.Contains(txt, "return") {
-						keep = true
-					}
-					if keep {
-						pre = append(pre, txt)
-					}
-				}
-				var in []string
-				derived := []string{W}
-				for _, s := range pre {
-					if m := chunkDef.FindStringSubmatch(s); m != nil {
-						derived = append(derived, m[1])
-					}
-				}
-				mentions := func(txt string) bool {
-					for _, d := range derived {
-						if identRe(d).MatchString(txt) {
-							return true
-						}
-					}
-					return false
-				}
-				for _, st := range loop.Body.List {
-					if st == ast.Stmt(g) {
-						break
-					}
-					if skip(st) {
-						continue
-					}
-					txt := uvPrint(st)
-					switch v := st.(type) {
-					case *ast.AssignStmt:
-						if !mentions(txt) {
+				walk = func(list []ast.Stmt, st *psState) {
+					for _, stm := range list {
+						if !psContainsGo(stm) {
+							st.effect(stm, 0)
 							continue
 						}
-						if v.Tok == token.DEFINE {
-							for _, l := range v.Lhs {
-								if id, ok := l.(*ast.Ident); ok {
-									derived = append(derived, id.Name)
-								}
-							}
-						}
-					case *ast.IfStmt:
-						if !mentions(txt) {
-							continue
-						}
-					default:
-						continue
-					}
-					in = append(in, txt)
-				}
-				// roles
-					C, S, E, T := "", "", "", ""
-					for _, s := range pre {
-						if m := regexp.MustCompile(`^(\w+) := .*/ ` + regexp.QuoteMeta(N) + `$`).FindStringSubmatch(s); m != nil {
-							C = m[1]
-						}
-					}
-					defs := regexp.MustCompile(`^(\w+) := `)
-					for _, s := range in {
-						if m := defs.FindStringSubmatch(s); m != nil {
-							if S == "" {
-								S = m[1]
-							} else if E == "" {
-								E = m[1]
-							}
-						}
-					}
-					if E != "" {
-						for _, s := range in {
-							if m := regexp.MustCompile(`^if ` + regexp.QuoteMeta(E) + ` > (.+) \{ ` + regexp.QuoteMeta(E) + ` = (.+) \}$`).FindStringSubmatch(s); m != nil && m[1] == m[2] {
-								T = m[1]
-							}
-							if m := regexp.MustCompile(`^if ` + regexp.QuoteMeta(W) + ` == ` + regexp.QuoteMeta(N) + `-1 \{ ` + regexp.QuoteMeta(E) + ` = (.+) \}$`).FindStringSubmatch(s); m != nil {
-								T = m[1]
-							}
-						}
-					}
-					if T == "" && S != "" {
-						for _, s := range in {
-							if m := regexp.MustCompile(`^` + regexp.QuoteMeta(S) + ` := ` + regexp.QuoteMeta(W) + ` \* (.+) / ` + regexp.QuoteMeta(N) + `$`).FindStringSubmatch(s); m != nil {
-								T = m[1]
-							}
-						}
-					}
-					isIdent := regexp.MustCompile(`^\w+$`)
-					norm := func(s string) string {
-						for _, kv := range [][2]string{{N, "N"}, {W, "W"}, {C, "C"}, {S, "S"}, {E, "E"}} {
-							if kv[0] != "" {
-								s = identRe(kv[0]).ReplaceAllString(s, kv[1])
-							}
-						}
-						if T != "" {
-							if isIdent.MatchString(T) {
-								s = identRe(T).ReplaceAllString(s, "T")
-							} else {
-								s = strings.ReplaceAll(s, T, "T")
-							}
-						}
-						return s
-					}
-					for i := range pre {
-						pre[i] = norm(pre[i])
-					}
-					for i := range in {
-						in[i] = norm(in[i])
-					}
-					code := partNormalise(pre, in)
-					recs = append(recs, rec{fname, fd.Name.Name, partShapeTable[code], code, line})
-				}
-				visitBlock = func(b *ast.BlockStmt) {
-					for i, st := range b.List {
-						switch v := st.(type) {
+						switch v := stm.(type) {
 						case *ast.GoStmt:
-							handleGo(b, i, nil, v)
+							add(v, psSite{kind: "single"})
 						case *ast.ForStmt:
-							spawned := false
+							direct := false
+							for _, s2 := range v.Body.List {
+								if _, ok := s2.(*ast.GoStmt); ok {
+									direct = true
+								}
+							}
+							if direct {
+								spawnLoop(v, st)
+							} else {
+								in := st.clone()
+								for _, n := range psAssigned(v) {
+									in.store[n] = nil
+								}
+								walk(v.Body.List, in)
+							}
+							for _, n := range psAssigned(v) {
+								st.store[n] = nil
+							}
+						case *ast.RangeStmt:
+							direct := false
 							for _, s2 := range v.Body.List {
 								if g, ok := s2.(*ast.GoStmt); ok {
-									handleGo(b, i, v, g)
-									spawned = true
+									direct = true
+									add(g, psSite{kind: "workers", nw: psVar("len(" + uvPrint(v.X) + ")")})
 								}
 							}
-							if !spawned {
-								visitBlock(v.Body)
+							if !direct {
+								in := st.clone()
+								for _, n := range psAssigned(v) {
+									in.store[n] = nil
+								}
+								walk(v.Body.List, in)
+							}
+							for _, n := range psAssigned(v) {
+								st.store[n] = nil
 							}
 						case *ast.IfStmt:
-							visitBlock(v.Body)
-							if eb, ok := v.Else.(*ast.BlockStmt); ok {
-								visitBlock(eb)
+							in := st.clone()
+							if v.Init != nil {
+								in.effect(v.Init, 0)
+							}
+							walk(v.Body.List, in.clone())
+							switch e := v.Else.(type) {
+							case *ast.BlockStmt:
+								walk(e.List, in.clone())
+							case *ast.IfStmt:
+								walk([]ast.Stmt{e}, in.clone())
+							}
+							for _, n := range psAssigned(v) {
+								st.store[n] = nil
 							}
 						case *ast.BlockStmt:
-							visitBlock(v)
-						case *ast.RangeStmt:
-							visitBlock(v.Body)
+							walk(v.List, st)
 						case *ast.SwitchStmt:
 							for _, cl := range v.Body.List {
 								if cc, ok := cl.(*ast.CaseClause); ok {
-									visitBlock(&ast.BlockStmt{List: cc.Body})
+									walk(cc.Body, st.clone())
+								}
+							}
+						default:
+							// a go statement inside something else (function literal assigned to a
+							// variable, select, ...): it exists, its spawn pattern is not understood
+							ast.Inspect(stm, func(x ast.Node) bool {
+								if g, ok := x.(*ast.GoStmt); ok {
+									add(g, psSite{kind: "unknown: go statement inside " + fmt.Sprintf("%T", stm)})
+								}
+								return true
+							})
+						}
+					}
+				}
+				var why string
+				st0 := &psState{store: map[string]*psExpr{}, funcs: funcs, why: &why}
+				// a parameter that bounds a spawn loop is the worker count handed in
+				params := map[string]bool{}
+				for _, f := range fd.Type.Params.List {
+					for _, n := range f.Names {
+						params[n.Name] = true
+					}
+				}
+				ast.Inspect(fd.Body, func(x ast.Node) bool {
+					if fs, ok := x.(*ast.ForStmt); ok {
+						for _, s2 := range fs.Body.List {
+							if _, isGo := s2.(*ast.GoStmt); isGo {
+								if be, ok := fs.Cond.(*ast.BinaryExpr); ok {
+									if id, ok := be.Y.(*ast.Ident); ok && params[id.Name] {
+										st0.store[id.Name] = psVar("#n")
+									}
 								}
 							}
 						}
 					}
-				}
-				visitBlock(fd.Body)
+					return true
+				})
+				walk(fd.Body.List, st0)
 			}
 		}
 	}
-	sort.SliceStable(recs, func(i, j int) bool {
-		if recs[i].file != recs[j].file {
-			return recs[i].file < recs[j].file
+	sort.SliceStable(sites, func(i, j int) bool {
+		if sites[i].file != sites[j].file {
+			return sites[i].file < sites[j].file
 		}
-		return recs[i].line < recs[j].line
+		return sites[i].line < sites[j].line
 	})
 	var out bytes.Buffer
-	out.WriteString("(* GENERATED by tools/gosrc2v (partshapes.go) from /repo's current source. Do not edit. *)\nFrom Coq Require Import List String.\nImport ListNotations.\nOpen Scope string_scope.\n\n")
-	out.WriteString("(* every go statement: (file, enclosing function, recognised partition shape) *)\nDefinition site_shapes : list (string * string * string) :=\n  [")
-	for i, r := range recs {
-		if r.shape == "" {
-			refuse("partshapes: %s %s (line %d): unknown partition shape: %s", r.file, r.fn, r.line, r.code)
+	out.WriteString("(* GENERATED by tools/gosrc2v (partshapes.go) from /repo's current source. Do not edit. *)\nFrom Coq Require Import String List ZArith.\nFrom Webp Require Import Conc.ConcPartExpr.\nImport ListNotations.\nOpen Scope string_scope.\nOpen Scope Z_scope.\n\n")
+	// sub-expressions that occur more than once are emitted once, as named definitions
+	refs := map[*psExpr]int{}
+	var count func(e *psExpr)
+	count = func(e *psExpr) {
+		if e == nil {
+			return
 		}
-		if i > 0 {
-			out.WriteString(";\n   ")
+		refs[e]++
+		if refs[e] > 1 {
+			return
 		}
-		fmt.Fprintf(&out, "(%s, %s, %s)", concCoqString(r.file), concCoqString(r.fn), concCoqString(r.shape))
+		for _, c := range []*psExpr{e.a, e.b, e.x, e.y} {
+			count(c)
+		}
 	}
-	out.WriteString("].\n\n(* the normalised code each shape was recognised from *)\nDefinition site_codes : list string :=\n  [")
-	for i, r := range recs {
+	zero := psConst(0)
+	for i := range sites {
+		if sites[i].nw == nil {
+			sites[i].nw = zero
+		}
+		if sites[i].start == nil || sites[i].stop == nil {
+			sites[i].start, sites[i].stop = zero, zero
+		}
+		count(sites[i].nw)
+		count(sites[i].start)
+		count(sites[i].stop)
+	}
+	names := map[*psExpr]string{}
+	var emit func(e *psExpr) string
+	emit = func(e *psExpr) string {
+		if n, ok := names[e]; ok {
+			return n
+		}
+		var txt string
+		switch e.op {
+		case "var", "const":
+			return e.coq()
+		case "if":
+			txt = fmt.Sprintf("(PIf %s %s %s %s %s)", e.cmp, emit(e.a), emit(e.b), emit(e.x), emit(e.y))
+		default:
+			c := map[string]string{"add": "PAdd", "sub": "PSub", "mul": "PMul", "div": "PDiv", "mod": "PMod", "min": "PMin", "max": "PMax"}[e.op]
+			txt = fmt.Sprintf("(%s %s %s)", c, emit(e.a), emit(e.b))
+		}
+		if refs[e] > 1 {
+			n := fmt.Sprintf("e%d", len(names)+1)
+			names[e] = n
+			fmt.Fprintf(&out, "Definition %s : pexpr := %s.\n", n, txt)
+			return n
+		}
+		return txt
+	}
+	type row struct{ nw, start, stop string }
+	rows := make([]row, len(sites))
+	for i, s := range sites {
+		rows[i] = row{emit(s.nw), emit(s.start), emit(s.stop)}
+	}
+	out.WriteString("\n(* every go statement: file, function, kind (ranges / workers / single / unknown: reason), number of\n   spawn-loop iterations, range handed to worker #w, break at the first empty range, free variables *)\nDefinition sites : list site :=\n  [")
+	for i, s := range sites {
 		if i > 0 {
 			out.WriteString(";\n   ")
 		}
-		out.WriteString(concCoqString(r.code))
+		vs := map[string]bool{}
+		s.nw.vars(vs)
+		s.start.vars(vs)
+		s.stop.vars(vs)
+		delete(vs, "#n")
+		delete(vs, "#w")
+		var vnames []string
+		for v := range vs {
+			vnames = append(vnames, concCoqString(v))
+		}
+		sort.Strings(vnames)
+		fmt.Fprintf(&out, "mkSite %s %s %s\n     %s\n     %s\n     %s\n     %v [%s]", concCoqString(s.file), concCoqString(s.fn), concCoqString(s.kind),
+			rows[i].nw, rows[i].start, rows[i].stop, s.brk, strings.Join(vnames, "; "))
 	}
 	out.WriteString("].\n")
 	return "PartShapes.v", out.String()
